@@ -124,7 +124,122 @@ func (t *Term) IsConst() bool { return t.op == "const" }
 func (t *Term) IsTrue() bool  { return t.op == "const" && t.s.K == 'b' && t.c == 1 }
 func (t *Term) IsFalse() bool { return t.op == "const" && t.s.K == 'b' && t.c == 0 }
 
-func ConstBV(w int, v uint64) *Term { return mk("const", BV(w), v&mask(w), 0, 0, "") }
+func ConstBV(w int, v uint64) *Term {
+	if w > 64 {
+		return ConstBVBig(w, new(big.Int).SetUint64(v))
+	}
+	return mk("const", BV(w), v&mask(w), 0, 0, "")
+}
+
+// ConstBVBig is a bit-vector constant of any width (value taken modulo 2^w).
+// Constants wider than 64 bits are a separate operator ("bigconst") so that
+// none of the uint64 folding rules applies to them.
+func ConstBVBig(w int, v *big.Int) *Term {
+	m := new(big.Int).Lsh(big.NewInt(1), uint(w))
+	r := new(big.Int).Mod(v, m)
+	if w <= 64 {
+		return ConstBV(w, r.Uint64())
+	}
+	t := mk("bigconst", BV(w), 0, 0, 0, r.String())
+	if t.bi == nil {
+		t.bi = r
+	}
+	return t
+}
+
+func wideConst(t *Term) (*big.Int, bool) {
+	if t.op == "bigconst" {
+		return t.bi, true
+	}
+	return nil, false
+}
+
+func toSigned(v *big.Int, w int) *big.Int {
+	h := new(big.Int).Lsh(big.NewInt(1), uint(w-1))
+	if v.Cmp(h) >= 0 {
+		return new(big.Int).Sub(v, new(big.Int).Lsh(big.NewInt(1), uint(w)))
+	}
+	return v
+}
+
+// wideBin folds / builds binary operations on bit-vectors wider than 64 bits.
+func wideBin(op string, a, b *Term) *Term {
+	w := a.s.W
+	x, okx := wideConst(a)
+	y, oky := wideConst(b)
+	if okx && oky {
+		r := new(big.Int)
+		switch op {
+		case "bvadd":
+			return ConstBVBig(w, r.Add(x, y))
+		case "bvsub":
+			return ConstBVBig(w, r.Sub(x, y))
+		case "bvmul":
+			return ConstBVBig(w, r.Mul(x, y))
+		case "bvand":
+			return ConstBVBig(w, r.And(x, y))
+		case "bvor":
+			return ConstBVBig(w, r.Or(x, y))
+		case "bvxor":
+			return ConstBVBig(w, r.Xor(x, y))
+		case "bvshl":
+			if y.IsUint64() && y.Uint64() < uint64(w) {
+				return ConstBVBig(w, r.Lsh(x, uint(y.Uint64())))
+			}
+			return ConstBVBig(w, big.NewInt(0))
+		case "bvlshr":
+			if y.IsUint64() && y.Uint64() < uint64(w) {
+				return ConstBVBig(w, r.Rsh(x, uint(y.Uint64())))
+			}
+			return ConstBVBig(w, big.NewInt(0))
+		case "bvudiv":
+			if y.Sign() != 0 {
+				return ConstBVBig(w, r.Div(x, y))
+			}
+		case "bvurem":
+			if y.Sign() != 0 {
+				return ConstBVBig(w, r.Mod(x, y))
+			}
+		}
+	}
+	if oky && y.Sign() == 0 && (op == "bvadd" || op == "bvsub" || op == "bvor" || op == "bvxor" || op == "bvshl" || op == "bvlshr") {
+		return a
+	}
+	if okx && x.Sign() == 0 && (op == "bvadd" || op == "bvor" || op == "bvxor") {
+		return b
+	}
+	if op == "bvmul" {
+		if oky && y.Cmp(big.NewInt(1)) == 0 {
+			return a
+		}
+		if okx && x.Cmp(big.NewInt(1)) == 0 {
+			return b
+		}
+	}
+	return mk(op, a.s, 0, 0, 0, "", a, b)
+}
+
+func wideCmp(op string, a, b *Term) *Term {
+	w := a.s.W
+	x, okx := wideConst(a)
+	y, oky := wideConst(b)
+	if okx && oky {
+		switch op {
+		case "bvult":
+			return ConstBool(x.Cmp(y) < 0)
+		case "bvule":
+			return ConstBool(x.Cmp(y) <= 0)
+		case "bvslt":
+			return ConstBool(toSigned(x, w).Cmp(toSigned(y, w)) < 0)
+		case "bvsle":
+			return ConstBool(toSigned(x, w).Cmp(toSigned(y, w)) <= 0)
+		}
+	}
+	if a == b {
+		return ConstBool(op == "bvule" || op == "bvsle")
+	}
+	return mk(op, BoolS, 0, 0, 0, "", a, b)
+}
 func ConstBool(b bool) *Term {
 	if b {
 		return mk("const", BoolS, 1, 0, 0, "")
@@ -276,6 +391,9 @@ func Eq(a, b *Term) *Term {
 		}
 		return ConstBool(a.c == b.c)
 	}
+	if a.op == "bigconst" && b.op == "bigconst" {
+		return ConstBool(a.bi.Cmp(b.bi) == 0)
+	}
 	if a.s.K == 'b' {
 		if a.IsConst() {
 			if a.c == 1 {
@@ -318,6 +436,9 @@ func BvBin(op string, a, b *Term) *Term {
 	w := a.s.W
 	if a.s != b.s {
 		panic(fmt.Sprintf("BvBin %s sort mismatch %v %v", op, a.s, b.s))
+	}
+	if w > 64 {
+		return wideBin(op, a, b)
 	}
 	if a.IsConst() && b.IsConst() {
 		x, y := a.c, b.c
@@ -463,6 +584,9 @@ func BvCmp(op string, a, b *Term) *Term {
 	if a.s != b.s {
 		panic(fmt.Sprintf("BvCmp %s sort mismatch %v %v", op, a.s, b.s))
 	}
+	if w > 64 {
+		return wideCmp(op, a, b)
+	}
 	if a.IsConst() && b.IsConst() {
 		x, y := a.c, b.c
 		switch op {
@@ -521,7 +645,7 @@ func BvCmp(op string, a, b *Term) *Term {
 	return mk(op, BoolS, 0, 0, 0, "", a, b)
 }
 func BvNot(a *Term) *Term {
-	if a.IsConst() {
+	if a.IsConst() && a.s.W <= 64 {
 		return ConstBV(a.s.W, ^a.c)
 	}
 	if a.op == "bvnot" {
@@ -530,7 +654,10 @@ func BvNot(a *Term) *Term {
 	return mk("bvnot", a.s, 0, 0, 0, "", a)
 }
 func BvNeg(a *Term) *Term {
-	if a.IsConst() {
+	if x, ok := wideConst(a); ok {
+		return ConstBVBig(a.s.W, new(big.Int).Neg(x))
+	}
+	if a.IsConst() && a.s.W <= 64 {
 		return ConstBV(a.s.W, -a.c)
 	}
 	return mk("bvneg", a.s, 0, 0, 0, "", a)
@@ -538,6 +665,12 @@ func BvNeg(a *Term) *Term {
 func Extract(hi, lo int, a *Term) *Term {
 	if lo == 0 && hi == a.s.W-1 {
 		return a
+	}
+	if x, ok := wideConst(a); ok {
+		return ConstBVBig(hi-lo+1, new(big.Int).Rsh(x, uint(lo)))
+	}
+	if a.s.W > 64 {
+		return mk("extract", BV(hi-lo+1), 0, hi, lo, "", a)
 	}
 	if a.IsConst() {
 		return ConstBV(hi-lo+1, a.c>>uint(lo))
@@ -564,6 +697,18 @@ func ZExt(a *Term, w int) *Term {
 	if w == a.s.W {
 		return a
 	}
+	if w > 64 {
+		if a.IsConst() {
+			return ConstBVBig(w, new(big.Int).SetUint64(a.c))
+		}
+		if x, ok := wideConst(a); ok {
+			return ConstBVBig(w, x)
+		}
+		if a.op == "zext" {
+			return ZExt(a.args[0], w)
+		}
+		return mk("zext", BV(w), 0, w-a.s.W, 0, "", a)
+	}
 	if a.IsConst() {
 		return ConstBV(w, a.c)
 	}
@@ -579,6 +724,18 @@ func SExt(a *Term, w int) *Term {
 	if w == a.s.W {
 		return a
 	}
+	if w > 64 {
+		if a.IsConst() {
+			return ConstBVBig(w, big.NewInt(sext64(a.c, a.s.W)))
+		}
+		if x, ok := wideConst(a); ok {
+			return ConstBVBig(w, toSigned(x, a.s.W))
+		}
+		if a.op == "zext" {
+			return ZExt(a.args[0], w)
+		}
+		return mk("sext", BV(w), 0, w-a.s.W, 0, "", a)
+	}
 	if a.IsConst() {
 		return ConstBV(w, uint64(sext64(a.c, a.s.W)))
 	}
@@ -588,7 +745,7 @@ func SExt(a *Term, w int) *Term {
 	return mk("sext", BV(w), 0, w-a.s.W, 0, "", a)
 }
 func Concat(a, b *Term) *Term {
-	if a.IsConst() && b.IsConst() && a.s.W+b.s.W <= 64 {
+	if a.IsConst() && b.IsConst() && a.s.W+b.s.W <= 64 && a.s.W <= 64 && b.s.W <= 64 {
 		return ConstBV(a.s.W+b.s.W, a.c<<uint(b.s.W)|b.c)
 	}
 	return mk("concat", BV(a.s.W+b.s.W), 0, 0, 0, "", a, b)
@@ -794,6 +951,8 @@ func (t *Term) ref() string {
 		return fmt.Sprintf("(_ bv%d %d)", t.c, t.s.W)
 	case "var":
 		return smtName(t.name)
+	case "bigconst":
+		return fmt.Sprintf("(_ bv%s %d)", t.bi.String(), t.s.W)
 	}
 	return fmt.Sprintf("t%d", t.id)
 }
@@ -855,6 +1014,14 @@ func evalTerm(t *Term, m map[*Term]uint64, memo map[*Term]uint64) (uint64, bool)
 	}
 	if v, ok := memo[t]; ok {
 		return v, true
+	}
+	if t.op == "bigconst" || (t.s.K == 'v' && t.s.W > 64) {
+		return 0, false
+	}
+	for _, a := range t.args {
+		if a.s.K == 'v' && a.s.W > 64 {
+			return 0, false
+		}
 	}
 	if t.op == "var" {
 		v, ok := m[t]
